@@ -43,3 +43,5 @@ func verifEnvBegin()                        { panic("verif intrinsic") }
 func verifEnvReplay()                       { panic("verif intrinsic") }
 func verifEnvEnd()                          { panic("verif intrinsic") }
 func verifRepeat() int                      { panic("verif intrinsic") }
+
+func verifSymQtyU64(name string) uint64 { panic("verif intrinsic") }
